@@ -12,7 +12,11 @@
 //   invssrb minTof maxTof rs3 rs4 | seg3 | minSeg4 seg4... | view/tang ranges of both | every bin of the direct sinograms
 //                                               -> every bin of the 4D data, or no (incompatible ranges) or err; see run_inverse_ssrb
 //   ext segnum views kn kd | ...                see run_extend (azimuthal sampling kn/kd * pi/views: 180, 360 degrees and others)
-//   ov1 / ovit / zoom / cog                     see the zoom section
+//   ov1 / ovit / zoom / cog                     see the zoom section (zoom 3d|2d|out|pl: one call with 3-D parameters, transaxial call,
+//                                                  two-step call on a given output grid, transaxial two-step call on one plane)
+// Round 3: DEGENERATE requests are generated on purpose: run_zoom_degenerate (per axis zoom exactly 1 with offset 0 / != 0, offsets along one
+// axis only, same / other size, every variant incl. re-used outputs), run_overlap_1d / run_zoom_viewgram with degen >= 0,
+// run_ssrb_identity_like (identity-like SSRB settings one at a time), gen_degenerate_cfg (single segment / single axial position).
 //   zvg out|inpl|rel | ...                      zoom_viewgram (both overloads) / zoom_viewgrams on arc-corrected viewgrams; see run_zoom_viewgram
 // Calls that are undefined behaviour on some revisions of the library (2-D-parameter zoom_image of an image whose first plane is not 0,
 // inverse_SSRB on incompatible data) are made in a forked child process, so that a crash is a verdict and not the end of the run.
@@ -41,6 +45,7 @@
 #include "stir/centre_of_gravity.h"
 #include "stir/numerics/overlap_interpolate.h"
 #include "stir/VoxelsOnCartesianGrid.h"
+#include "stir/PixelsOnCartesianGrid.h"
 #include "stir/IndexRange3D.h"
 #include "stir/Array.h"
 #include <algorithm>
@@ -360,6 +365,23 @@ run_ssrb_data(const shared_ptr<const ProjDataInfoCylindricalNoArcCorr>& in,
       nz_mem[norm] = nz;
       have_mem[norm] = true;
 
+      // ORACLE: identity-like settings must be the identity: nothing combined (segments, views, TOF bins), nothing trimmed ->
+      // every processed sinogram comes back bin by bin (also with do_norm: the normalisation factor is 1)
+      if (prm.kSeg == 1 && prm.kView == 1 && prm.trim == 0 && prm.kTof == 1 && outinfo->get_num_views() == in->get_num_views()
+          && outinfo->get_min_tangential_pos_num() == in->get_min_tangential_pos_num()
+          && outinfo->get_max_tangential_pos_num() == in->get_max_tangential_pos_num())
+        {
+          std::vector<std::pair<BinKey, float>> expect_id;
+          for (auto& e : nonzero_bins(din, *in))
+            if (std::abs(e.first[0]) <= outinfo->get_max_segment_num())
+              expect_id.push_back(e);
+          ++oracle_checks;
+          if (expect_id != nz)
+            oracle_fail("SSRB with identity settings (1 segment, 1 view, 1 TOF bin to combine, nothing trimmed; do_norm=" + std::to_string(norm)
+                        + ") does not give back the input data: " + std::to_string(expect_id.size()) + " non-zero bins in, " + std::to_string(nz.size())
+                        + " out; in{" + geom_str(*in) + "} out{" + geom_str(*outinfo) + "} maxSeg=" + std::to_string(prm.maxSeg));
+        }
+
       if (norm)
         continue;
       // ---------------- ORACLE (property statement on the implementation)
@@ -506,6 +528,20 @@ run_ssrb_data(const shared_ptr<const ProjDataInfoCylindricalNoArcCorr>& in,
         }
     }
 
+  // ORACLE (SSRB.h: do_norm "averages"): with one segment per output segment every output sinogram has exactly one contributing input
+  // sinogram, so the normalised output is the unnormalised one divided by the number of views combined -- bin by bin
+  if (have_mem[0] && have_mem[1] && prm.kSeg == 1 && in->get_num_views() % outinfo->get_num_views() == 0)
+    {
+      const int kv = in->get_num_views() / outinfo->get_num_views();
+      bool ok = nz_mem[0].size() == nz_mem[1].size();
+      for (std::size_t i = 0; ok && i < nz_mem[0].size(); ++i)
+        ok = nz_mem[0][i].first == nz_mem[1][i].first && std::fabs(nz_mem[1][i].second * kv - nz_mem[0][i].second) <= 1e-6 * nz_mem[0][i].second;
+      ++oracle_checks;
+      if (!ok)
+        oracle_fail("SSRB with do_norm and num_segments_to_combine 1 is not the unnormalised result divided by the number of views combined ("
+                    + std::to_string(kv) + "): in{" + geom_str(*in) + "} out{" + geom_str(*outinfo) + "}");
+    }
+
   // ---------------- the overload that computes the output geometry itself and writes an Interfile pair:
   // SSRB(output_filename, in, num_segments_to_combine, num_views_to_combine, num_tang_poss_to_trim, do_norm, max_in_segment_num_to_process,
   //      num_tof_bins_to_combine); the file is read back and answers the same `ssrbdata` operation again
@@ -586,6 +622,52 @@ run_ssrb_info(const shared_ptr<const ProjDataInfoCylindricalNoArcCorr>& in, cons
       return outinfo;
     }
   ++n_out, std::fprintf(out, "%s\n", geom_str(*outinfo).c_str());
+  // ORACLE: identity-like settings are the identity, one argument at a time: whatever the other arguments are,
+  // num_segments_to_combine = 1 keeps every (processed) segment as it is, num_views_to_combine = 1 keeps the views and their angles,
+  // num_tang_poss_to_trim = 0 keeps the (centred) tangential range, num_tof_bins_to_combine = 1 keeps the TOF bins
+  {
+    std::string bad;
+    if (p.kSeg == 1)
+      {
+        const int want_max = p.maxSeg >= 0 ? p.maxSeg : in->get_max_segment_num();
+        if (outinfo->get_max_segment_num() != want_max || outinfo->get_min_segment_num() != -want_max)
+          bad += " segment range " + std::to_string(outinfo->get_min_segment_num()) + ".." + std::to_string(outinfo->get_max_segment_num());
+        else
+          for (int sg = -want_max; sg <= want_max; ++sg)
+            if (outinfo->get_min_ring_difference(sg) != in->get_min_ring_difference(sg) || outinfo->get_max_ring_difference(sg) != in->get_max_ring_difference(sg)
+                || outinfo->get_min_axial_pos_num(sg) != in->get_min_axial_pos_num(sg) || outinfo->get_max_axial_pos_num(sg) != in->get_max_axial_pos_num(sg)
+                || std::fabs(outinfo->get_m(Bin(sg, 0, outinfo->get_min_axial_pos_num(sg), 0)) - in->get_m(Bin(sg, 0, in->get_min_axial_pos_num(sg), 0))) > 1e-4)
+              bad += " segment " + std::to_string(sg);
+      }
+    if (p.kView == 1)
+      {
+        if (outinfo->get_num_views() != in->get_num_views() || outinfo->get_min_view_num() != in->get_min_view_num()
+            || outinfo->get_view_mashing_factor() != in->get_view_mashing_factor()
+            || std::fabs(outinfo->get_azimuthal_angle_offset() - in->get_azimuthal_angle_offset()) > 1e-6
+            || std::fabs(outinfo->get_azimuthal_angle_sampling() - in->get_azimuthal_angle_sampling()) > 1e-6 * in->get_azimuthal_angle_sampling())
+          bad += " views";
+      }
+    const bool centred = in->get_min_tangential_pos_num() == -(in->get_num_tangential_poss() / 2);
+    if (p.trim == 0 && centred)
+      {
+        if (outinfo->get_min_tangential_pos_num() != in->get_min_tangential_pos_num() || outinfo->get_max_tangential_pos_num() != in->get_max_tangential_pos_num())
+          bad += " tangential range";
+      }
+    if (p.kTof == 1)
+      {
+        if (outinfo->get_tof_mash_factor() != in->get_tof_mash_factor() || outinfo->get_min_tof_pos_num() != in->get_min_tof_pos_num()
+            || outinfo->get_max_tof_pos_num() != in->get_max_tof_pos_num())
+          bad += " TOF bins";
+      }
+    if (std::fabs(outinfo->get_s(Bin(0, 0, 0, 1)) - in->get_s(Bin(0, 0, 0, 1))) > 1e-4 || outinfo->get_ring_spacing() != in->get_ring_spacing())
+      bad += " tangential / axial sampling";
+    ++oracle_checks;
+    if (!bad.empty())
+      oracle_fail("SSRB(ProjDataInfo, ...) changes a part of the geometry whose argument is at its identity value (num_segments_to_combine 1 / "
+                  "num_views_to_combine 1 / num_tang_poss_to_trim 0 / num_tof_bins_to_combine 1):" + bad + ": in{" + geom_str(*in) + "} out{" + geom_str(*outinfo)
+                  + "} kSeg=" + std::to_string(p.kSeg) + " kView=" + std::to_string(p.kView) + " trim=" + std::to_string(p.trim)
+                  + " maxSeg=" + std::to_string(p.maxSeg) + " kTof=" + std::to_string(p.kTof));
+  }
   ++n_ops, std::fprintf(ops, "ssrbphi %s %s %d %d\n", vh::hex(in->get_azimuthal_angle_offset()).c_str(), vh::hex(in->get_azimuthal_angle_sampling()).c_str(),
                in->get_num_views(), p.kView);
   ++n_out, std::fprintf(out, "%s %s\n", F(outinfo->get_azimuthal_angle_offset()).c_str(), F(outinfo->get_azimuthal_angle_sampling()).c_str());
@@ -625,14 +707,25 @@ rand_zoom(vh::Rng& rng)
 }
 
 // 1-D: overlap_interpolate(VectorWithOffset) and the iterator version
+// degen < 0: random requests; degen >= 0: the DEGENERATE requests in turn: degen % 4 = 0: zoom 1, offset 0; 1: zoom 1, offset a whole number of
+// boxes; 2: zoom 1, any offset; 3: zoom != 1, offset 0; (degen / 4) % 2 = 0: the same index range for input and output, 1: another one
 static void
-run_overlap_1d(vh::Rng& rng)
+run_overlap_1d(vh::Rng& rng, const int degen = -1)
 {
   const int imin = rng.range(-5, 2), ilen = rng.range(1, 9);
-  const int omin = rng.range(-6, 3), olen = rng.range(1, 10);
-  const float zoom = rand_zoom(rng);
+  int omin = rng.range(-6, 3), olen = rng.range(1, 10);
+  float zoom = rand_zoom(rng);
   const int ok = rng.range(0, 3);
-  const float offset = ok == 0 ? 0.F : (ok == 1 ? (rng.coin() ? .5F : -.5F) : static_cast<float>(rng.unit() * 6 - 3));
+  float offset = ok == 0 ? 0.F : (ok == 1 ? (rng.coin() ? .5F : -.5F) : static_cast<float>(rng.unit() * 6 - 3));
+  if (degen >= 0)
+    {
+      zoom = degen % 4 == 3 ? (zoom == 1.F ? 1.5F : zoom) : 1.F;
+      offset = degen % 4 == 1 ? static_cast<float>((rng.coin() ? 1 : -1) * rng.range(1, 3)) : (degen % 4 == 2 ? offset : 0.F);
+      if ((degen / 4) % 2 == 0)
+        omin = imin, olen = ilen;
+      else if (omin == imin && olen == ilen)
+        ++olen;
+    }
   const bool assign = rng.range(0, 4) != 0;
   const bool nonneg = rng.coin();
   const bool uniform = rng.range(0, 4) == 0;
@@ -737,6 +830,23 @@ run_overlap_1d(vh::Rng& rng)
                           + " i=" + std::to_string(i) + " value=" + std::to_string(res[i]) + " c=" + std::to_string(c));
           }
       }
+  // zoom exactly 1 and an offset of a whole number of boxes: the values are copied, box i of the result is box i + offset of the input
+  if (zoom == 1.F && offset == std::floor(offset))
+    {
+      const int sh = static_cast<int>(offset);
+      bool ok = true;
+      for (int i = res.get_min_index(); i <= res.get_max_index(); ++i)
+        {
+          const int j = i + sh;
+          const float expect = (j >= in.get_min_index() && j <= in.get_max_index()) ? in[j] : 0.F;
+          if (std::fabs(res[i] - expect) > 1e-5 * max_in)
+            ok = false;
+        }
+      ++oracle_checks;
+      if (!ok)
+        oracle_fail("overlap_interpolate with zoom 1 and an offset of a whole number of boxes does not copy the values: offset=" + vh::hex(offset) + " in=["
+                    + std::to_string(imin) + "," + std::to_string(imin + ilen - 1) + "] out=[" + std::to_string(omin) + "," + std::to_string(omin + olen - 1) + "]");
+    }
   // the two implementations agree (the iterator version drops overlaps below 1e-4 of a box).
   // Not compared when all input lies left of the output: the iterator version then returns without zeroing the output
   // (overlap_interpolate.inl:55-61) although assign_rest_with_zeroes is set -- reported, not part of C15.
@@ -1029,6 +1139,138 @@ run_cog(const VoxelsOnCartesianGrid<float>& im)
     }
 }
 
+// the object put into the input image of a zoom case: values inside the box bz0..bz1 x by0..by1 x bx0..bx1, 0 elsewhere
+struct ZoomObject
+{
+  bool nonneg;      // no negative values
+  bool uniform_box; // the value c everywhere in the box
+  float c;
+  int bz0, bz1, by0, by1, bx0, bx1;
+};
+
+// the property's own statement on one result O of zooming `in` (whatever call produced it): total conserved (times the documented factor of
+// the option) and centre of mass in mm within half the sum of the voxel sizes when the new grid covers the object; uniform regions stay uniform
+static void
+zoom_statement_oracle(const VoxelsOnCartesianGrid<float>& in,
+                      const VoxelsOnCartesianGrid<float>& O,
+                      const int opt,
+                      const ZoomObject& ob,
+                      const std::string& req,
+                      const std::string& in_txt)
+{
+  const ImgGeom g = geom_of(in);
+  const ImgGeom go = geom_of(O);
+  const float ezx = g.vx / go.vx, ezy = g.vy / go.vy, ezz = g.vz / go.vz; // effective zooms
+  // does the new grid cover the object (extent of the non-zero voxels)?
+  int oz0 = 1 << 20, oz1 = -(1 << 20), oy0 = 1 << 20, oy1 = -(1 << 20), ox0 = 1 << 20, ox1 = -(1 << 20);
+  double abs_in = 0;
+  for (int z = in.get_min_z(); z <= in.get_max_z(); ++z)
+    for (int y = in.get_min_y(); y <= in.get_max_y(); ++y)
+      for (int x = in.get_min_x(); x <= in.get_max_x(); ++x)
+        if (in[z][y][x] != 0)
+          {
+            abs_in += std::fabs(in[z][y][x]);
+            oz0 = std::min(oz0, z), oz1 = std::max(oz1, z), oy0 = std::min(oy0, y), oy1 = std::max(oy1, y), ox0 = std::min(ox0, x), ox1 = std::max(ox1, x);
+          }
+  if (abs_in == 0)
+    return;
+  auto covers1 = [](double vin, double oin, int lo, int hi, double vout, double oout, int olo, int ohi) {
+    const double eps = 1e-4 * (vin + vout);
+    return (olo - .5) * vout + oout <= (lo - .5) * vin + oin + eps && (ohi + .5) * vout + oout >= (hi + .5) * vin + oin - eps;
+  };
+  const bool covers = covers1(g.vz, g.oz, oz0, oz1, go.vz, go.oz, go.zmin, go.zmin + go.nz - 1)
+                      && covers1(g.vy, g.oy, oy0, oy1, go.vy, go.oy, go.ymin, go.ymin + go.ny - 1)
+                      && covers1(g.vx, g.ox, ox0, ox1, go.vx, go.ox, go.xmin, go.xmin + go.nx - 1);
+  const double scale = opt == 0 ? 1. : (opt == 1 ? static_cast<double>(ezx) * ezy * ezz : static_cast<double>(ezy) * ezz);
+  double ci[3], co[3], ti, to;
+  const bool hi = own_com(in, ci, ti), ho = own_com(O, co, to);
+  if (covers)
+    {
+      // total conserved (preserve_sum; the other options scale it by the documented factor)
+      ++oracle_checks;
+      if (std::fabs(to - ti * scale) > 1e-4 * abs_in * scale)
+        oracle_fail("zoom_image does not conserve the total although the new grid covers the object: option " + std::to_string(opt) + " total "
+                    + std::to_string(ti) + " -> " + std::to_string(to) + " expected factor " + std::to_string(scale) + " req: " + req
+                    + " in: " + in_txt);
+      // centre of mass within half the sum of the voxel sizes, per axis
+      if (ob.nonneg && hi && ho)
+        {
+          ++oracle_checks;
+          const double bz = 0.5 * (g.vz + go.vz) + 1e-3, by = 0.5 * (g.vy + go.vy) + 1e-3, bx = 0.5 * (g.vx + go.vx) + 1e-3;
+          if (std::fabs(co[0] - ci[0]) > bz || std::fabs(co[1] - ci[1]) > by || std::fabs(co[2] - ci[2]) > bx)
+            oracle_fail("zoom_image moves the centre of mass by more than half the sum of the voxel sizes: (" + std::to_string(ci[0]) + ","
+                        + std::to_string(ci[1]) + "," + std::to_string(ci[2]) + ") -> (" + std::to_string(co[0]) + "," + std::to_string(co[1]) + ","
+                        + std::to_string(co[2]) + ") req: " + req + " in: " + in_txt);
+          // and the library's own centre of gravity says the same
+          if (O.sum() > 0)
+            {
+              const CartesianCoordinate3D<float> cl_in = find_centre_of_gravity_in_mm(in), cl_out = find_centre_of_gravity_in_mm(O);
+              ++oracle_checks;
+              if (std::fabs(cl_out.z() - cl_in.z()) > bz || std::fabs(cl_out.y() - cl_in.y()) > by || std::fabs(cl_out.x() - cl_in.x()) > bx)
+                oracle_fail("find_centre_of_gravity_in_mm moves by more than half the sum of the voxel sizes under zoom_image: req: " + req + " in: " + in_txt);
+            }
+        }
+    }
+  // uniform regions: an output voxel lying inside the uniform box has the value c * (documented factor)
+  if (ob.uniform_box)
+    {
+      const double factor = opt == 1 ? 1. : (opt == 0 ? 1. / (static_cast<double>(ezx) * ezy * ezz) : 1. / ezx);
+      for (int z = O.get_min_z(); z <= O.get_max_z(); ++z)
+        for (int y = O.get_min_y(); y <= O.get_max_y(); ++y)
+          for (int x = O.get_min_x(); x <= O.get_max_x(); ++x)
+            {
+              auto inside = [](double vout, double oout, int i, double vin, double oin, int lo, int hi) {
+                const double eps = 1e-3 * (vin + vout);
+                return (i - .5) * vout + oout >= (lo - .5) * vin + oin + eps && (i + .5) * vout + oout <= (hi + .5) * vin + oin - eps;
+              };
+              if (inside(go.vz, go.oz, z, g.vz, g.oz, ob.bz0, ob.bz1) && inside(go.vy, go.oy, y, g.vy, g.oy, ob.by0, ob.by1)
+                  && inside(go.vx, go.ox, x, g.vx, g.ox, ob.bx0, ob.bx1))
+                {
+                  ++oracle_checks;
+                  if (std::fabs(O[z][y][x] - ob.c * factor) > 2e-4 * ob.c * factor)
+                    oracle_fail("zoom_image does not keep a uniform region uniform: option " + std::to_string(opt) + " voxel (" + std::to_string(z) + ","
+                                + std::to_string(y) + "," + std::to_string(x) + ") = " + std::to_string(O[z][y][x]) + " expected "
+                                + std::to_string(ob.c * factor) + " req: " + req + " in: " + in_txt);
+                }
+            }
+    }
+}
+
+// the grid a zoom request asks for: sizes as given, voxel sizes v_in/zoom, and the middle of the new grid at the middle of the old grid
+// plus the offsets in mm (zoom.h: "offsets_in_mm: shift of the centre of the new image w.r.t. the centre of the old one")
+static void
+grid_oracle(const VoxelsOnCartesianGrid<float>& in,
+            const VoxelsOnCartesianGrid<float>& O,
+            const float zz, const float zy, const float zx,
+            const float offz, const float offy, const float offx,
+            const int nz, const int ny, const int nx,
+            const std::string& what)
+{
+  const ImgGeom g = geom_of(in), go = geom_of(O);
+  auto mid = [](int lo, int n, double v, double o) { return (lo + (n - 1) / 2.) * v + o; };
+  auto bad1 = [&](int lo_in, int n_in, double v_in, double o_in, int lo_out, int n_out, double v_out, double o_out, double zoom, double off, int n_req) {
+    const double ext = v_in * (std::abs(lo_in) + n_in) + v_out * (std::abs(lo_out) + n_out) + std::fabs(o_in) + std::fabs(o_out) + std::fabs(off);
+    return n_out != n_req || std::fabs(v_out - v_in / zoom) > 1e-5 * v_in / zoom
+           || std::fabs(mid(lo_out, n_out, v_out, o_out) - (mid(lo_in, n_in, v_in, o_in) + off)) > 1e-5 * ext;
+  };
+  ++oracle_checks;
+  if (bad1(g.zmin, g.nz, g.vz, g.oz, go.zmin, go.nz, go.vz, go.oz, zz, offz, nz) || bad1(g.ymin, g.ny, g.vy, g.oy, go.ymin, go.ny, go.vy, go.oy, zy, offy, ny)
+      || bad1(g.xmin, g.nx, g.vx, g.ox, go.xmin, go.nx, go.vx, go.ox, zx, offx, nx))
+    oracle_fail("zoom_image returns another grid than requested (sizes, voxel size v/zoom, middle of the new grid = middle of the old one + offsets in mm): "
+                + what + ": in{" + geom_ops(g) + "} out{" + geom_ops(go) + "}");
+}
+
+// a two-step call zoom_image(out, in) must leave the grid of `out` (index range, voxel size, origin) as the caller made it
+static void
+same_grid_oracle(const ImgGeom& before, const VoxelsOnCartesianGrid<float>& after, const std::string& what)
+{
+  const ImgGeom a = geom_of(after);
+  ++oracle_checks;
+  if (a.zmin != before.zmin || a.ymin != before.ymin || a.xmin != before.xmin || a.nz != before.nz || a.ny != before.ny || a.nx != before.nx
+      || a.vz != before.vz || a.vy != before.vy || a.vx != before.vx || a.oz != before.oz || a.oy != before.oy || a.ox != before.ox)
+    oracle_fail("two-step zoom_image(out, in) changes the grid of the output image: " + what + ": before{" + geom_ops(before) + "} after{" + geom_ops(a) + "}");
+}
+
 static void
 run_zoom_case(vh::Rng& rng)
 {
@@ -1109,6 +1351,7 @@ run_zoom_case(vh::Rng& rng)
   const VoxelsOnCartesianGrid<float> A
       = zoom_image(in, CartesianCoordinate3D<float>(zz, zy, zx), CartesianCoordinate3D<float>(offz, offy, offx), Coordinate3D<int>(nz, ny, nx), zo);
   ++n_out, std::fprintf(out, "%s\n", img_answer(A).c_str());
+  grid_oracle(in, A, zz, zy, zx, offz, offy, offx, nz, ny, nx, pa.str());
   // B: in place
   VoxelsOnCartesianGrid<float> B(in);
   zoom_image_in_place(B, CartesianCoordinate3D<float>(zz, zy, zx), CartesianCoordinate3D<float>(offz, offy, offx), Coordinate3D<int>(nz, ny, nx), zo);
@@ -1122,7 +1365,9 @@ run_zoom_case(vh::Rng& rng)
   for (auto it = C.begin_all(); it != C.end_all(); ++it)
     *it = rand_value(rng, true); // previous contents must not matter
   ++n_ops, std::fprintf(ops, "zoom out %d | %s | %s |%s\n", opt, in_txt.c_str(), geom_ops(geom_of(C)).c_str(), dat_txt.c_str());
+  const ImgGeom c_before = geom_of(C);
   zoom_image(C, in, zo);
+  same_grid_oracle(c_before, C, "into a new image");
   ++n_out, std::fprintf(out, "%s\n", img_answer(C).c_str());
   ++oracle_checks;
   if (!images_agree(A, C, 1e-5))
@@ -1177,6 +1422,8 @@ run_zoom_case(vh::Rng& rng)
           // (the 2-D interface returns the image untouched when zoom==1, offsets==0 and new_size==x_size, without looking at y_size:
           //  for a non-square image that is not the requested grid -- reported, not compared)
           const bool shortcut_nonsquare = zx == 1.F && offx == 0.F && offy == 0.F && nx == g.nx && g.ny != g.nx;
+          if (!shortcut_nonsquare)
+            grid_oracle(in, D, 1.F, zx, zx, 0.F, offy, offx, g.nz, nx, nx, "transaxial call " + pd.str());
           ++oracle_checks;
           if (!shortcut_nonsquare && !images_agree(A, D, 1e-5))
             oracle_fail("zoom_image with (zoom, offsets, size) differs from zoom_image with the equivalent 3-D parameters (first plane of the input: "
@@ -1204,91 +1451,353 @@ run_zoom_case(vh::Rng& rng)
         *it = rand_value(rng, true);
       ++n_ops, std::fprintf(ops, "zoom out %d | %s | %s |%s\n", opt, in_txt.c_str(), geom_ops(h).c_str(), dat_txt.c_str());
       zoom_image(Fimg, in, zo);
+      same_grid_oracle(h, Fimg, "into a freely chosen grid");
       ++n_out, std::fprintf(out, "%s\n", img_answer(Fimg).c_str());
     }
   run_cog(in);
   run_cog(A);
 
   // ---------------- ORACLE on A (and on D): the property's own statement
-  const VoxelsOnCartesianGrid<float>* results[2] = { &A, &D };
-  for (int r = 0; r < (twod && d_ok ? 2 : 1); ++r)
+  const ZoomObject ob = { nonneg, uniform_box, c, bz0, bz1, by0, by1, bx0, bx1 };
+  zoom_statement_oracle(in, A, opt, ob, pa.str(), in_txt);
+  if (twod && d_ok)
+    zoom_statement_oracle(in, D, opt, ob, pa.str() + " (transaxial call)", in_txt);
+}
+
+// ---- DEGENERATE zoom requests.  Every axis is, independently, in one of the classes
+//   0: zoom exactly 1, offset 0        1: zoom exactly 1, offset != 0 (a pure shift)
+//   2: zoom != 1, offset 0             3: zoom != 1, offset != 0
+// so that the requests "offset only in x / only in y / only in z", "zoom 1 along some axes only", "nothing to do" all occur, into a new grid of
+// the SAME size as the input and of a different size, with every ZoomOptions scaling, through every call variant: one call with 3-D
+// parameters, in place, two steps into a new image, two steps into a RE-USED image that holds the result of another zoom, the transaxial
+// one-call / in-place calls, and the transaxial two-step call zoom_image(PixelsOnCartesianGrid&, const PixelsOnCartesianGrid&) plane by plane
+// into one re-used plane.  The object sits in the middle of the image so that a same-size shifted grid still covers it.
+static std::string
+plane_data_ops(const PixelsOnCartesianGrid<float>& pl)
+{
+  std::ostringstream s;
+  for (int y = pl.get_min_y(); y <= pl.get_max_y(); ++y)
+    for (int x = pl.get_min_x(); x <= pl.get_max_x(); ++x)
+      s << " " << vh::hex(pl[y][x]);
+  return s.str();
+}
+
+static void
+run_zoom_degenerate(vh::Rng& rng, const int k)
+{
+  const int opt = k % 3;
+  const bool twod = (k / 3) % 2 == 0; // request expressible with the (zoom, x_offset, y_offset, new_size) interface
+  const bool same_size = (k / 6) % 2 == 0;
+  int cls[3]; // z, y, x
+  if (twod)
+    { // one zoom for x and y, nothing along z: the 8 combinations in turn
+      const int j = (k / 12) % 8;
+      const int zc = (j & 1) ? 2 : 0;
+      cls[0] = 0;
+      cls[1] = zc + ((j & 4) ? 1 : 0);
+      cls[2] = zc + ((j & 2) ? 1 : 0);
+    }
+  else
+    for (int a = 0; a < 3; ++a)
+      {
+        const int r = rng.range(0, 9);
+        cls[a] = r < 4 ? 0 : (r < 8 ? 1 : (r == 8 ? 2 : 3));
+      }
+  // ---- input image
+  ImgGeom g;
+  g.nz = twod ? rng.range(1, 4) : rng.range(5, 7);
+  g.ny = rng.range(7, 9);
+  g.nx = (twod || rng.coin()) ? g.ny : rng.range(7, 9);
+  const bool standard_range = rng.range(0, 5) != 0;
+  g.zmin = rng.range(0, 5) == 0 ? rng.range(-2, 2) : 0;
+  g.ymin = standard_range ? -(g.ny / 2) : rng.range(-5, 1);
+  g.xmin = standard_range ? -(g.nx / 2) : rng.range(-5, 1);
+  g.vz = rng.coin() ? 2.F : static_cast<float>(1 + rng.unit() * 3);
+  g.vy = rng.range(0, 2) == 0 ? 4.F : (rng.coin() ? 3.F : static_cast<float>(1 + rng.unit() * 3));
+  g.vx = rng.range(0, 3) ? g.vy : static_cast<float>(1 + rng.unit() * 3);
+  g.oz = rng.coin() ? 0.F : static_cast<float>(rng.unit() * 20 - 10);
+  g.oy = rng.coin() ? 0.F : static_cast<float>(rng.unit() * 20 - 10);
+  g.ox = rng.coin() ? 0.F : static_cast<float>(rng.unit() * 20 - 10);
+  VoxelsOnCartesianGrid<float> in = make_img(g);
+  const int kind = rng.range(0, 3); // 0: non-negative blob, 1: uniform box, 2: single voxel, 3: signed blob
+  ZoomObject ob;
+  ob.nonneg = kind != 3;
+  ob.uniform_box = kind == 1 || kind == 2;
+  ob.c = static_cast<float>(1 + rng.unit() * 5);
+  {
+    const int mz = g.nz >= 5 ? 2 : 0, my = 3, mx = 3; // margins
+    ob.bz0 = rng.range(g.zmin + mz, g.zmin + g.nz - 1 - mz);
+    ob.bz1 = kind == 2 ? ob.bz0 : rng.range(ob.bz0, g.zmin + g.nz - 1 - mz);
+    ob.by0 = rng.range(g.ymin + my, g.ymin + g.ny - 1 - my);
+    ob.by1 = kind == 2 ? ob.by0 : rng.range(ob.by0, g.ymin + g.ny - 1 - my);
+    ob.bx0 = rng.range(g.xmin + mx, g.xmin + g.nx - 1 - mx);
+    ob.bx1 = kind == 2 ? ob.bx0 : rng.range(ob.bx0, g.xmin + g.nx - 1 - mx);
+  }
+  for (int z = ob.bz0; z <= ob.bz1; ++z)
+    for (int y = ob.by0; y <= ob.by1; ++y)
+      for (int x = ob.bx0; x <= ob.bx1; ++x)
+        in[z][y][x] = ob.uniform_box ? ob.c : rand_value(rng, !ob.nonneg);
+
+  // ---- request
+  const float v_in[3] = { g.vz, g.vy, g.vx };
+  const int n_in[3] = { g.nz, g.ny, g.nx };
+  float zoom[3], off[3];
+  int n_new[3];
+  bool whole_voxels = true; // every offset is a whole number of input voxels
+  for (int a = 0; a < 3; ++a)
     {
-      const VoxelsOnCartesianGrid<float>& O = *results[r];
-      const ImgGeom go = geom_of(O);
-      const float ezx = g.vx / go.vx, ezy = g.vy / go.vy, ezz = g.vz / go.vz; // effective zooms
-      // does the new grid cover the object (extent of the non-zero voxels)?
-      int oz0 = 1 << 20, oz1 = -(1 << 20), oy0 = 1 << 20, oy1 = -(1 << 20), ox0 = 1 << 20, ox1 = -(1 << 20);
-      double abs_in = 0;
-      for (int z = in.get_min_z(); z <= in.get_max_z(); ++z)
-        for (int y = in.get_min_y(); y <= in.get_max_y(); ++y)
-          for (int x = in.get_min_x(); x <= in.get_max_x(); ++x)
-            if (in[z][y][x] != 0)
-              {
-                abs_in += std::fabs(in[z][y][x]);
-                oz0 = std::min(oz0, z), oz1 = std::max(oz1, z), oy0 = std::min(oy0, y), oy1 = std::max(oy1, y), ox0 = std::min(ox0, x), ox1 = std::max(ox1, x);
-              }
-      if (abs_in == 0)
-        continue;
-      auto covers1 = [](double vin, double oin, int lo, int hi, double vout, double oout, int olo, int ohi) {
-        const double eps = 1e-4 * (vin + vout);
-        return (olo - .5) * vout + oout <= (lo - .5) * vin + oin + eps && (ohi + .5) * vout + oout >= (hi + .5) * vin + oin - eps;
-      };
-      const bool covers = covers1(g.vz, g.oz, oz0, oz1, go.vz, go.oz, go.zmin, go.zmin + go.nz - 1)
-                          && covers1(g.vy, g.oy, oy0, oy1, go.vy, go.oy, go.ymin, go.ymin + go.ny - 1)
-                          && covers1(g.vx, g.ox, ox0, ox1, go.vx, go.ox, go.xmin, go.xmin + go.nx - 1);
-      const double scale = opt == 0 ? 1. : (opt == 1 ? static_cast<double>(ezx) * ezy * ezz : static_cast<double>(ezy) * ezz);
-      double ci[3], co[3], ti, to;
-      const bool hi = own_com(in, ci, ti), ho = own_com(O, co, to);
-      if (covers)
+      zoom[a] = 1.F;
+      off[a] = 0.F;
+      if (cls[a] >= 2)
         {
-          // total conserved (preserve_sum; the other options scale it by the documented factor)
+          const float zs[] = { 2.F, .5F, 1.5F, .75F, 1.25F, 3.F, 1.F / 3.F };
+          zoom[a] = rng.coin() ? zs[rng.range(0, 6)] : static_cast<float>(0.3 + rng.unit() * 2.7);
+          if (zoom[a] == 1.F)
+            zoom[a] = 2.F;
+        }
+      if (cls[a] % 2 == 1)
+        {
+          const int ok = rng.range(0, 3);
+          const float voxels = ok == 0 ? 1.F : (ok == 1 ? 2.F : (ok == 2 ? .5F : static_cast<float>(0.25 + rng.unit() * 1.75)));
+          if (ok >= 2)
+            whole_voxels = false;
+          off[a] = (rng.coin() ? voxels : -voxels) * v_in[a];
+          if (a == 0 && g.nz < 5)
+            off[a] = (off[a] < 0 ? -.5F : .5F) * v_in[a], whole_voxels = false; // (few planes: a small shift only)
+        }
+    }
+  if (twod)
+    zoom[2] = zoom[1];
+  for (int a = 0; a < 3; ++a)
+    {
+      if (same_size)
+        n_new[a] = n_in[a];
+      else if (rng.coin())
+        n_new[a] = static_cast<int>(std::ceil(n_in[a] * zoom[a] + 2 * std::fabs(off[a]) / v_in[a] * zoom[a])) + 1 + rng.range(0, 2);
+      else
+        n_new[a] = std::max(1, n_in[a] + (rng.coin() ? 1 : -1) * rng.range(1, 2));
+      n_new[a] = std::min(n_new[a], a == 0 ? 8 : 14);
+    }
+  if (twod)
+    {
+      n_new[0] = g.nz;
+      n_new[1] = n_new[2] = same_size ? g.nx : std::max(n_new[1], n_new[2]);
+    }
+  const float zz = zoom[0], zy = zoom[1], zx = zoom[2], offz = off[0], offy = off[1], offx = off[2];
+  const int nz = n_new[0], ny = n_new[1], nx = n_new[2];
+  const ZoomOptions zo(opt == 0 ? ZoomOptions::preserve_sum : (opt == 1 ? ZoomOptions::preserve_values : ZoomOptions::preserve_projections));
+  const std::string in_txt = geom_ops(g), dat_txt = data_ops(in);
+  std::ostringstream pa;
+  pa << vh::hex(zz) << " " << vh::hex(zy) << " " << vh::hex(zx) << " " << vh::hex(offz) << " " << vh::hex(offy) << " " << vh::hex(offx) << " " << nz << " " << ny
+     << " " << nx;
+  const std::string req = pa.str() + " (degenerate request: zoom (" + std::to_string(zz) + "," + std::to_string(zy) + "," + std::to_string(zx) + ") offsets in mm ("
+                          + std::to_string(offz) + "," + std::to_string(offy) + "," + std::to_string(offx) + ") sizes " + std::to_string(g.nz) + "x"
+                          + std::to_string(g.ny) + "x" + std::to_string(g.nx) + " -> " + std::to_string(nz) + "x" + std::to_string(ny) + "x" + std::to_string(nx)
+                          + ", option " + std::to_string(opt) + ")";
+
+  // A: one call, 3-D parameters
+  ++n_ops, std::fprintf(ops, "zoom 3d %d | %s | %s |%s\n", opt, in_txt.c_str(), pa.str().c_str(), dat_txt.c_str());
+  const VoxelsOnCartesianGrid<float> A
+      = zoom_image(in, CartesianCoordinate3D<float>(zz, zy, zx), CartesianCoordinate3D<float>(offz, offy, offx), Coordinate3D<int>(nz, ny, nx), zo);
+  ++n_out, std::fprintf(out, "%s\n", img_answer(A).c_str());
+  grid_oracle(in, A, zz, zy, zx, offz, offy, offx, nz, ny, nx, req);
+  // B: in place
+  VoxelsOnCartesianGrid<float> B(in);
+  zoom_image_in_place(B, CartesianCoordinate3D<float>(zz, zy, zx), CartesianCoordinate3D<float>(offz, offy, offx), Coordinate3D<int>(nz, ny, nx), zo);
+  ++n_ops, std::fprintf(ops, "zoom 3d %d | %s | %s |%s\n", opt, in_txt.c_str(), pa.str().c_str(), dat_txt.c_str());
+  ++n_out, std::fprintf(out, "%s\n", img_answer(B).c_str());
+  ++oracle_checks;
+  if (!images_agree(A, B, 0))
+    oracle_fail("zoom_image_in_place (3-D parameters) differs from zoom_image: " + req + " in: " + in_txt);
+  // C: two steps into a new image with arbitrary contents
+  VoxelsOnCartesianGrid<float> C = make_img(geom_of(A));
+  for (auto it = C.begin_all(); it != C.end_all(); ++it)
+    *it = rand_value(rng, true);
+  const std::string out_txt = geom_ops(geom_of(C));
+  ++n_ops, std::fprintf(ops, "zoom out %d | %s | %s |%s\n", opt, in_txt.c_str(), out_txt.c_str(), dat_txt.c_str());
+  const ImgGeom c_before = geom_of(C);
+  zoom_image(C, in, zo);
+  same_grid_oracle(c_before, C, "into a new image");
+  ++n_out, std::fprintf(out, "%s\n", img_answer(C).c_str());
+  ++oracle_checks;
+  if (!images_agree(A, C, 1e-5))
+    oracle_fail("two-step zoom_image(out, in) differs from the one-call zoom_image: " + req + " in: " + in_txt);
+  // C2: two steps into a RE-USED image: it holds the result of zooming another image, then receives this one
+  VoxelsOnCartesianGrid<float> C2(C);
+  {
+    VoxelsOnCartesianGrid<float> other(in);
+    for (auto it = other.begin_all(); it != other.end_all(); ++it)
+      *it = *it * 1.5F + (rng.range(0, 3) == 0 ? rand_value(rng, false) : 0.F);
+    ++n_ops, std::fprintf(ops, "zoom out %d | %s | %s |%s\n", opt, in_txt.c_str(), out_txt.c_str(), data_ops(other).c_str());
+    zoom_image(C2, other, zo);
+    ++n_out, std::fprintf(out, "%s\n", img_answer(C2).c_str());
+    ++n_ops, std::fprintf(ops, "zoom out %d | %s | %s |%s\n", opt, in_txt.c_str(), geom_ops(geom_of(C2)).c_str(), dat_txt.c_str());
+    zoom_image(C2, in, zo);
+    same_grid_oracle(c_before, C2, "into a re-used image");
+    ++n_out, std::fprintf(out, "%s\n", img_answer(C2).c_str());
+    ++oracle_checks;
+    if (!images_agree(C, C2, 0))
+      oracle_fail("two-step zoom_image(out, in) into a re-used output image (holding the result of another zoom) differs from the same call into a "
+                  "new image: "
+                  + req + " in: " + in_txt);
+  }
+  // D, E: the transaxial calls
+  VoxelsOnCartesianGrid<float> D = A;
+  bool d_ok = true, have_d = false;
+  if (twod)
+    {
+      have_d = true;
+      std::ostringstream pd;
+      pd << vh::hex(zx) << " " << vh::hex(offx) << " " << vh::hex(offy) << " " << nx;
+      ++n_ops, std::fprintf(ops, "zoom 2d %d | %s | %s |%s\n", opt, in_txt.c_str(), pd.str().c_str(), dat_txt.c_str());
+      bool de_agree = true;
+      if (g.zmin == 0)
+        {
+          D = zoom_image(in, zx, offx, offy, nx, zo);
+          VoxelsOnCartesianGrid<float> E(in);
+          zoom_image_in_place(E, zx, offx, offy, nx, zo);
+          de_agree = images_agree(D, E, 0);
+        }
+      else
+        { // (undefined behaviour on some revisions when the first plane is not 0: in a child process)
+          std::string res;
+          const int st = run_in_child(
+              [&] {
+                const VoxelsOnCartesianGrid<float> d = zoom_image(in, zx, offx, offy, nx, zo);
+                VoxelsOnCartesianGrid<float> e(in);
+                zoom_image_in_place(e, zx, offx, offy, nx, zo);
+                return pack_img(d) + pack_img(e);
+              },
+              res);
+          std::size_t pos = 0;
+          VoxelsOnCartesianGrid<float> E(in);
+          if (st != 0 || !unpack_img(res, pos, D) || !unpack_img(res, pos, E))
+            d_ok = false;
+          else
+            de_agree = images_agree(D, E, 0);
+        }
+      ++oracle_checks;
+      if (!d_ok)
+        {
+          ++n_out, std::fprintf(out, "crash\n");
+          oracle_fail("zoom_image with (zoom, offsets, size) crashes / throws on an image whose first plane is " + std::to_string(g.zmin)
+                      + " (the 3-D-parameter call with the equivalent request works): " + req + " in: " + in_txt);
+        }
+      else
+        {
+          ++n_out, std::fprintf(out, "%s\n", img_answer(D).c_str());
+          if (!de_agree)
+            oracle_fail("zoom_image_in_place (2-D parameters) differs from zoom_image: " + req + " in: " + in_txt);
+          const bool shortcut_nonsquare = zx == 1.F && offx == 0.F && offy == 0.F && nx == g.nx && g.ny != g.nx;
+          if (!shortcut_nonsquare)
+            grid_oracle(in, D, 1.F, zx, zx, 0.F, offy, offx, g.nz, nx, nx, "transaxial call " + pd.str());
           ++oracle_checks;
-          if (std::fabs(to - ti * scale) > 1e-4 * abs_in * scale)
-            oracle_fail("zoom_image does not conserve the total although the new grid covers the object: option " + std::to_string(opt) + " total "
-                        + std::to_string(ti) + " -> " + std::to_string(to) + " expected factor " + std::to_string(scale) + " req: " + pa.str()
-                        + " in: " + in_txt);
-          // centre of mass within half the sum of the voxel sizes, per axis
-          if (nonneg && hi && ho)
-            {
-              ++oracle_checks;
-              const double bz = 0.5 * (g.vz + go.vz) + 1e-3, by = 0.5 * (g.vy + go.vy) + 1e-3, bx = 0.5 * (g.vx + go.vx) + 1e-3;
-              if (std::fabs(co[0] - ci[0]) > bz || std::fabs(co[1] - ci[1]) > by || std::fabs(co[2] - ci[2]) > bx)
-                oracle_fail("zoom_image moves the centre of mass by more than half the sum of the voxel sizes: (" + std::to_string(ci[0]) + ","
-                            + std::to_string(ci[1]) + "," + std::to_string(ci[2]) + ") -> (" + std::to_string(co[0]) + "," + std::to_string(co[1]) + ","
-                            + std::to_string(co[2]) + ") req: " + pa.str() + " in: " + in_txt);
-              // and the library's own centre of gravity says the same
-              if (O.sum() > 0)
-                {
-                  const CartesianCoordinate3D<float> cl_in = find_centre_of_gravity_in_mm(in), cl_out = find_centre_of_gravity_in_mm(O);
-                  ++oracle_checks;
-                  if (std::fabs(cl_out.z() - cl_in.z()) > bz || std::fabs(cl_out.y() - cl_in.y()) > by || std::fabs(cl_out.x() - cl_in.x()) > bx)
-                    oracle_fail("find_centre_of_gravity_in_mm moves by more than half the sum of the voxel sizes under zoom_image: req: " + pa.str() + " in: " + in_txt);
-                }
-            }
+          if (!shortcut_nonsquare && !images_agree(A, D, 1e-5))
+            oracle_fail("zoom_image with (zoom, offsets, size) differs from zoom_image with the equivalent 3-D parameters (first plane of the input: "
+                        + std::to_string(g.zmin) + "): " + req + " in: " + in_txt);
         }
-      // uniform regions: an output voxel lying inside the uniform box has the value c * (documented factor)
-      if (uniform_box)
+    }
+  // P: nothing to do along z: the transaxial two-step call zoom_image(PixelsOnCartesianGrid& out, const PixelsOnCartesianGrid& in, options),
+  // plane by plane into ONE output plane that is re-used (it holds the previous plane's result)
+  VoxelsOnCartesianGrid<float> P = A;
+  bool have_p = false;
+  if (cls[0] == 0 && nz == g.nz)
+    {
+      have_p = true;
+      PixelsOnCartesianGrid<float> out2d = A.get_plane(A.get_min_z());
+      for (auto it = out2d.begin_all(); it != out2d.end_all(); ++it)
+        *it = rand_value(rng, true);
+      for (int pl = in.get_min_z(); pl <= in.get_max_z(); ++pl)
         {
-          const double factor = opt == 1 ? 1. : (opt == 0 ? 1. / (static_cast<double>(ezx) * ezy * ezz) : 1. / ezx);
-          for (int z = O.get_min_z(); z <= O.get_max_z(); ++z)
-            for (int y = O.get_min_y(); y <= O.get_max_y(); ++y)
-              for (int x = O.get_min_x(); x <= O.get_max_x(); ++x)
-                {
-                  auto inside = [](double vout, double oout, int i, double vin, double oin, int lo, int hi) {
-                    const double eps = 1e-3 * (vin + vout);
-                    return (i - .5) * vout + oout >= (lo - .5) * vin + oin + eps && (i + .5) * vout + oout <= (hi + .5) * vin + oin - eps;
-                  };
-                  if (inside(go.vz, go.oz, z, g.vz, g.oz, bz0, bz1) && inside(go.vy, go.oy, y, g.vy, g.oy, by0, by1)
-                      && inside(go.vx, go.ox, x, g.vx, g.ox, bx0, bx1))
-                    {
-                      ++oracle_checks;
-                      if (std::fabs(O[z][y][x] - c * factor) > 2e-4 * c * factor)
-                        oracle_fail("zoom_image does not keep a uniform region uniform: option " + std::to_string(opt) + " voxel (" + std::to_string(z) + ","
-                                    + std::to_string(y) + "," + std::to_string(x) + ") = " + std::to_string(O[z][y][x]) + " expected "
-                                    + std::to_string(c * factor) + " req: " + pa.str() + " in: " + in_txt);
-                    }
-                }
+          const PixelsOnCartesianGrid<float> in2d = in.get_plane(pl);
+          ImgGeom gi1 = g, go1;
+          gi1.zmin = 0, gi1.nz = 1;
+          go1.zmin = 0, go1.nz = 1, go1.vz = g.vz, go1.oz = out2d.get_origin().z();
+          go1.ymin = out2d.get_min_y(), go1.xmin = out2d.get_min_x(), go1.ny = out2d.get_y_size(), go1.nx = out2d.get_x_size();
+          go1.vy = out2d.get_pixel_size().y(), go1.vx = out2d.get_pixel_size().x(), go1.oy = out2d.get_origin().y(), go1.ox = out2d.get_origin().x();
+          ++n_ops, std::fprintf(ops, "zoom pl %d | %s | %s |%s\n", opt, geom_ops(gi1).c_str(), geom_ops(go1).c_str(), plane_data_ops(in2d).c_str());
+          zoom_image(out2d, in2d, zo);
+          std::ostringstream a;
+          a << "geom 0 " << out2d.get_min_y() << " " << out2d.get_min_x() << " 1 " << out2d.get_y_size() << " " << out2d.get_x_size() << " " << F(go1.vz) << " "
+            << F(out2d.get_pixel_size().y()) << " " << F(out2d.get_pixel_size().x()) << " " << F(go1.oz) << " " << F(out2d.get_origin().y()) << " "
+            << F(out2d.get_origin().x()) << " |";
+          for (int y = out2d.get_min_y(); y <= out2d.get_max_y(); ++y)
+            for (int x = out2d.get_min_x(); x <= out2d.get_max_x(); ++x)
+              a << " " << F(out2d[y][x]);
+          ++n_out, std::fprintf(out, "%s\n", a.str().c_str());
+          const int po = pl - in.get_min_z() + P.get_min_z();
+          bool fits = out2d.get_min_y() == P.get_min_y() && out2d.get_max_y() == P.get_max_y() && out2d.get_min_x() == P.get_min_x()
+                      && out2d.get_max_x() == P.get_max_x() && out2d.get_pixel_size().y() == P.get_voxel_size().y()
+                      && out2d.get_pixel_size().x() == P.get_voxel_size().x() && out2d.get_origin().y() == P.get_origin().y()
+                      && out2d.get_origin().x() == P.get_origin().x();
+          ++oracle_checks;
+          if (!fits)
+            {
+              oracle_fail("two-step zoom_image(PixelsOnCartesianGrid& out, in) changes the grid of the output plane: " + req + " in: " + in_txt);
+              have_p = false;
+              break;
+            }
+          for (int y = out2d.get_min_y(); y <= out2d.get_max_y(); ++y)
+            for (int x = out2d.get_min_x(); x <= out2d.get_max_x(); ++x)
+              P[po][y][x] = out2d[y][x];
         }
+      if (have_p)
+        {
+          ++oracle_checks;
+          if (!images_agree(A, P, 1e-5))
+            oracle_fail("two-step zoom_image(PixelsOnCartesianGrid& out, in) plane by plane (re-used output plane) differs from zoom_image with the "
+                        "equivalent 3-D parameters: "
+                        + req + " in: " + in_txt);
+        }
+    }
+  run_cog(A);
+
+  // ---------------- ORACLE: the property's own statement on every result
+  zoom_statement_oracle(in, A, opt, ob, req, in_txt);
+  zoom_statement_oracle(in, C2, opt, ob, req + " (two-step call into a re-used image)", in_txt);
+  if (have_d && d_ok)
+    zoom_statement_oracle(in, D, opt, ob, req + " (transaxial call)", in_txt);
+  if (have_p)
+    zoom_statement_oracle(in, P, opt, ob, req + " (transaxial two-step call, plane by plane)", in_txt);
+  // zoom exactly 1 along every axis and offsets of whole voxels (or none): every voxel of the result is the input voxel at the same physical
+  // position (0 outside the input) -- a pure shift moves nothing but the grid; the identity request gives back the image
+  if (zz == 1.F && zy == 1.F && zx == 1.F && whole_voxels)
+    {
+      const VoxelsOnCartesianGrid<float>* rs[4] = { &A, &C2, (have_d && d_ok) ? &D : nullptr, have_p ? &P : nullptr };
+      const char* names[4] = { "one call, 3-D parameters", "two steps, re-used image", "transaxial call", "transaxial two-step call" };
+      const double m = max_abs(in);
+      for (int r = 0; r < 4; ++r)
+        if (rs[r])
+          {
+            const VoxelsOnCartesianGrid<float>& O = *rs[r];
+            const ImgGeom go = geom_of(O);
+            bool ok = true;
+            std::string where;
+            for (int z = O.get_min_z(); z <= O.get_max_z() && ok; ++z)
+              for (int y = O.get_min_y(); y <= O.get_max_y() && ok; ++y)
+                for (int x = O.get_min_x(); x <= O.get_max_x() && ok; ++x)
+                  {
+                    const double fz = (static_cast<double>(z) * go.vz + go.oz - g.oz) / g.vz, fy = (static_cast<double>(y) * go.vy + go.oy - g.oy) / g.vy,
+                                 fx = (static_cast<double>(x) * go.vx + go.ox - g.ox) / g.vx;
+                    const long iz = std::lround(fz), iy = std::lround(fy), ix = std::lround(fx);
+                    if (std::fabs(fz - iz) > 1e-4 || std::fabs(fy - iy) > 1e-4 || std::fabs(fx - ix) > 1e-4)
+                      continue; // (origins are floats: not a whole number of voxels after rounding)
+                    const bool inside = iz >= in.get_min_z() && iz <= in.get_max_z() && iy >= in.get_min_y() && iy <= in.get_max_y() && ix >= in.get_min_x()
+                                        && ix <= in.get_max_x();
+                    const double expect = inside ? in[iz][iy][ix] : 0.;
+                    if (std::fabs(O[z][y][x] - expect) > 1e-3 * m)
+                      {
+                        ok = false;
+                        where = "voxel (" + std::to_string(z) + "," + std::to_string(y) + "," + std::to_string(x) + ") = " + std::to_string(O[z][y][x])
+                                + ", the input at the same position in mm (voxel (" + std::to_string(iz) + "," + std::to_string(iy) + "," + std::to_string(ix)
+                                + ")) holds " + std::to_string(expect);
+                      }
+                  }
+            ++oracle_checks;
+            if (!ok)
+              oracle_fail(std::string("zoom_image with zoom 1 and a shift by whole voxels does not keep every value at its position in mm (")
+                          + names[r] + "): " + where + ": " + req + " in: " + in_txt);
+          }
     }
 }
 
@@ -1401,8 +1910,10 @@ viewgram_oracle(const Viewgram<float>& in, const Viewgram<float>& o, float xoff,
     }
 }
 
+// degen < 0: random requests; degen >= 0: the DEGENERATE requests in turn (bit 0: zoom exactly 1, bit 1: shift along x, bit 2: shift along y,
+// bit 3: the same tangential range) on data sitting in the middle of the range, so that a shifted range of the same size still covers them
 static void
-run_zoom_viewgram(vh::Rng& rng)
+run_zoom_viewgram(vh::Rng& rng, const int degen = -1)
 {
   const int Ns[] = { 8, 10, 12, 16 };
   const int N = Ns[rng.range(0, 3)];
@@ -1411,7 +1922,7 @@ run_zoom_viewgram(vh::Rng& rng)
   shared_ptr<Scanner> scanner = vh::make_scanner(N, R, tof ? 3 : -1);
   const std::vector<int> dv = divisors(N / 2);
   const int views = N / 2 / dv[rng.range(0, (int)dv.size() - 1)];
-  const int ntang = rng.range(2, 9);
+  const int ntang = degen >= 0 ? rng.range(7, 9) : rng.range(2, 9);
   shared_ptr<ProjDataInfo> p = vh::make_pdi(scanner, 1, R - 1, views, ntang, true, tof ? 1 : 0);
   ProjDataInfoCylindricalArcCorr* pa = dynamic_cast<ProjDataInfoCylindricalArcCorr*>(p.get());
   ++oracle_checks;
@@ -1434,15 +1945,16 @@ run_zoom_viewgram(vh::Rng& rng)
   const int tpos = rng.range(p->get_min_tof_pos_num(), p->get_max_tof_pos_num());
 
   VgFill f;
-  const int kind = rng.range(0, 5); // 0,1: non-negative, 2: signed, 3: uniform everywhere, 4: uniform block, 5: one bin
+  const int kind = degen >= 0 ? rng.range(4, 5) : rng.range(0, 5); // 0,1: non-negative, 2: signed, 3: uniform everywhere, 4: uniform block, 5: one bin
   f.nonneg = kind != 2;
   f.uniform = kind >= 3;
   f.c = static_cast<float>(1 + rng.unit() * 5);
   f.b0 = imin, f.b1 = imax;
   if (kind >= 4)
     {
-      f.b0 = rng.range(imin, imax);
-      f.b1 = kind == 5 ? f.b0 : rng.range(f.b0, imax);
+      const int margin = degen >= 0 ? 3 : 0;
+      f.b0 = rng.range(imin + margin, imax - margin);
+      f.b1 = kind == 5 ? f.b0 : rng.range(f.b0, imax - margin);
     }
   Viewgram<float> in = p->get_empty_viewgram(view, seg, false, tpos);
   fill_viewgram(in, f, rng);
@@ -1474,6 +1986,23 @@ run_zoom_viewgram(vh::Rng& rng)
       xoff = yoff = 0.F;
       omin = imin;
       omax = imax;
+    }
+  if (degen >= 0)
+    {
+      zoom = (degen & 1) ? 1.F : (zoom == 1.F ? 2.F : zoom);
+      auto shift = [&](bool on) {
+        if (!on)
+          return 0.F;
+        const int ok = rng.range(0, 2);
+        const float bins = ok == 0 ? 1.F : (ok == 1 ? .5F : static_cast<float>(0.25 + rng.unit() * .75));
+        return (rng.coin() ? bins : -bins) * in_bin;
+      };
+      xoff = shift((degen & 2) != 0);
+      yoff = shift((degen & 4) != 0);
+      if (degen & 8)
+        omin = imin, omax = imax;
+      else if (omin == imin && omax == imax)
+        ++omax;
     }
   const int nax = in.get_num_axial_poss();
   const std::string dat = viewgram_data(in, false);
@@ -1579,7 +2108,8 @@ inv_ranges(const ProjDataInfo& p3, const ProjDataInfo& p4)
 static void
 run_inverse_ssrb(vh::Rng& rng)
 {
-  const int N = 12, R = rng.range(2, 7); // (at most N/2 - 1 = 5 tangential positions)
+  // (at most N/2 - 1 = 5 tangential positions; sometimes ONE ring: a single direct sinogram, a single segment with a single axial position)
+  const int N = 12, R = rng.range(0, 9) == 0 ? 1 : rng.range(2, 7);
   const bool tof = rng.range(0, 3) == 0;
   shared_ptr<Scanner> scanner = vh::make_scanner(N, R, tof ? 3 : -1);
   const int span4 = (rng.coin() && 3 <= 2 * R - 1) ? 3 : 1;
@@ -1747,7 +2277,7 @@ run_extend(vh::Rng& rng)
   // (4 views put |phi_range - 2 pi| exactly on the 5-samplings threshold of the source: decided by float rounding, not generated)
   const int Ns[] = { 10, 12, 14, 20 };
   const int N = Ns[rng.range(0, 3)];
-  const int R = rng.range(2, 4);
+  const int R = rng.range(0, 7) == 0 ? 1 : rng.range(2, 4); // (one ring: a segment with a single axial position)
   const int views = N == 20 && rng.coin() ? 5 : N / 2;
   const int ntang = rng.range(3, N / 2 - 1);
   shared_ptr<Scanner> scanner = vh::make_scanner(N, R, -1);
@@ -1764,7 +2294,7 @@ run_extend(vh::Rng& rng)
   }
   if (kn != kd)
     dynamic_cast<ProjDataInfoCylindrical&>(*p).set_azimuthal_angle_sampling(static_cast<float>(kn * _PI / (kd * views)));
-  const int segnum = rng.range(0, 2) == 0 ? 1 : 0;
+  const int segnum = (R > 1 && rng.range(0, 2) == 0) ? 1 : 0;
   SegmentBySinogram<float> seg = p->get_empty_segment_by_sinogram(segnum);
   for (auto it = seg.begin_all(); it != seg.end_all(); ++it)
     *it = rand_value(rng, true);
@@ -1981,6 +2511,106 @@ run_ssrb_case(const InCfg& c, vh::Rng& rng, bool thorough, int forced_kseg = 0)
     }
 }
 
+// SSRB with identity-like settings ONE AT A TIME on one input geometry: the full identity request, then each argument alone away from
+// its identity value (the others at theirs).  The oracles of run_ssrb_info / run_ssrb_data say what must stay as it is.
+static void
+run_ssrb_identity_like(const InCfg& c, vh::Rng& rng, bool thorough)
+{
+  shared_ptr<Scanner> scanner = vh::make_scanner(c.N, c.R, c.T);
+  shared_ptr<ProjDataInfo> pdi0;
+  try
+    {
+      pdi0 = vh::make_pdi(scanner, c.span, c.max_delta, c.views, c.ntang, false, c.tof_mash);
+    }
+  catch (...)
+    {
+      return;
+    }
+  shared_ptr<const ProjDataInfoCylindricalNoArcCorr> in = dynamic_pointer_cast<ProjDataInfoCylindricalNoArcCorr>(pdi0);
+  if (!in)
+    return;
+  print_cfg(*in);
+  const SsrbParams id = { 1, 1, 0, -1, 1 };
+  std::vector<SsrbParams> list;
+  list.push_back(id);
+  {
+    SsrbParams p = id;
+    p.kSeg = (in->get_max_segment_num() >= 2 && rng.coin()) ? 5 : 3;
+    if (!reads_missing_segment(*in, p) && in->get_max_segment_num() >= p.kSeg / 2)
+      list.push_back(p);
+  }
+  {
+    const std::vector<int> dv = divisors(in->get_num_views());
+    if (dv.size() > 1)
+      {
+        SsrbParams p = id;
+        p.kView = dv[rng.range(1, (int)dv.size() - 1)];
+        list.push_back(p);
+      }
+  }
+  {
+    SsrbParams p = id;
+    const int nt = in->get_num_tangential_poss();
+    p.trim = (nt > 1 && rng.coin()) ? rng.range(1, std::min(2, nt - 1)) : -rng.range(1, 2);
+    list.push_back(p);
+  }
+  {
+    SsrbParams p = id;
+    p.maxSeg = rng.range(0, in->get_max_segment_num());
+    list.push_back(p);
+  }
+  {
+    SsrbParams p = id;
+    if (in->get_tof_mash_factor() > 0)
+      {
+        const int T = in->get_scanner_ptr()->get_max_num_timing_poss();
+        std::vector<int> ok;
+        for (int k = 3; k * in->get_tof_mash_factor() <= T; k += 2)
+          if ((T / (k * in->get_tof_mash_factor())) % 2 == 1)
+            ok.push_back(k);
+        if (!ok.empty())
+          p.kTof = ok[rng.range(0, (int)ok.size() - 1)];
+      }
+    else
+      p.kTof = 3;
+    if (p.kTof != 1)
+      list.push_back(p);
+  }
+  for (std::size_t k = 0; k < list.size(); ++k)
+    {
+      shared_ptr<ProjDataInfoCylindricalNoArcCorr> o = run_ssrb_info(in, list[k]);
+      if (!o || o->get_num_views() == 0)
+        continue;
+      run_ssrb_data(in, o, list[k], rng, thorough ? 120 : 60, k == 0 || rng.range(0, 2) == 0, rng.range(0, 3) == 0);
+    }
+}
+
+// input geometries with a single segment and / or a single axial position per segment
+static InCfg
+gen_degenerate_cfg(vh::Rng& rng, const int which)
+{
+  InCfg c = gen_in_cfg(rng, false);
+  switch (which % 5)
+    {
+    case 0: // one ring: one segment with one axial position
+      c.R = 1, c.span = 1, c.max_delta = 0;
+      break;
+    case 1: // direct sinograms only: one segment
+      c.R = std::max(2, c.R), c.span = 1, c.max_delta = 0;
+      break;
+    case 2: // span 1, all ring differences: the outermost segments have one axial position
+      c.R = std::max(2, std::min(c.R, 5)), c.span = 1, c.max_delta = c.R - 1;
+      break;
+    case 3: // all ring differences in ONE segment
+      c.R = rng.range(2, 4), c.span = 2 * c.R - 1, c.max_delta = c.R - 1;
+      break;
+    case 4: // two rings: span 3 (one segment, 3 axial positions) or span 1 (segments +-1 with one axial position)
+      c.R = 2, c.span = rng.coin() ? 3 : 1, c.max_delta = 1;
+      break;
+    }
+  return c;
+}
+
 int
 main(int argc, char** argv)
 {
@@ -2020,7 +2650,20 @@ main(int argc, char** argv)
   const int nssrb = thorough ? 400 : 70;
   for (int k = 0; k < nssrb; ++k)
     guarded("SSRB", [&] { run_ssrb_case(gen_in_cfg(rng, thorough), rng, thorough); });
+  // identity-like settings one at a time; geometries with a single segment / a single axial position per segment (both kinds of run)
+  const int nid = thorough ? 150 : 24;
+  for (int k = 0; k < nid; ++k)
+    guarded("SSRB (identity-like settings)", [&] { run_ssrb_identity_like(gen_in_cfg(rng, thorough), rng, thorough); });
+  const int ndeg = thorough ? 60 : 10;
+  for (int k = 0; k < ndeg; ++k)
+    {
+      const InCfg c = gen_degenerate_cfg(rng, k);
+      guarded("SSRB (single segment / single axial position, identity-like settings)", [&] { run_ssrb_identity_like(c, rng, thorough); });
+      guarded("SSRB (single segment / single axial position)", [&] { run_ssrb_case(c, rng, thorough); });
+    }
   const int n1d = thorough ? 6000 : 600;
+  for (int k = 0; k < n1d / 4; ++k)
+    guarded("overlap_interpolate (degenerate requests)", [&] { run_overlap_1d(rng, k); });
   for (int k = 0; k < n1d; ++k)
     {
       guarded("overlap_interpolate", [&] { run_overlap_1d(rng); });
@@ -2029,7 +2672,12 @@ main(int argc, char** argv)
   const int nzoom = thorough ? 1500 : 400;
   for (int k = 0; k < nzoom; ++k)
     guarded("zoom_image", [&] { run_zoom_case(rng); });
+  const int nzdeg = thorough ? 1920 : 384; // (a multiple of 96: every transaxial combination x option x same/other size equally often)
+  for (int k = 0; k < nzdeg; ++k)
+    guarded("zoom_image (degenerate requests)", [&] { run_zoom_degenerate(rng, k); });
   const int nvg = thorough ? 8000 : 600;
+  for (int k = 0; k < nvg / 4; ++k)
+    guarded("zoom_viewgram (degenerate requests)", [&] { run_zoom_viewgram(rng, k % 16); });
   for (int k = 0; k < nvg; ++k)
     guarded("zoom_viewgram", [&] { run_zoom_viewgram(rng); });
   const int ninv = thorough ? 1200 : 100;
